@@ -55,6 +55,30 @@ static bool pathOp(HxLine& l)
   return false;
 }
 
+// PatternMatcher::szWildMatch7 is local to the _WIN32 branch of Directory::read: tools/areas/path.py cuts its text out of
+// the CURRENT src/Directory.cpp into path_wild.inc (build directory), so the function compiled here is the one of the sources
+#if defined(__has_include)
+#if __has_include("path_wild.inc")
+#include "path_wild.inc"
+#define HAVE_WILD 1
+#endif
+#endif
+
+static bool wildOp(HxLine& l)
+{
+#ifdef HAVE_WILD
+  if(hxIs(l, "wild", 2))
+  {
+    size_t n = 0, m = 0;
+    char* p = hxCStr(l.tok[1], n); char* e = hxCStr(l.tok[2], m);
+    printf("%d", szWildMatch7(p, e) ? 1 : 0); hxEndLine();
+    free(p); free(e);
+    return true;
+  }
+#endif
+  return false;
+}
+
 // ---------------------------------------------------------------------------------------------
 // file-system ops: scratch world BASE = $TMPDIR/nstd-verif-<pid> with BASE/s (working directory)
 // and BASE/o (the outside sentinel).  Absolute paths of the op lines are relative to BASE.
@@ -582,6 +606,7 @@ int main()
   {
     if(hxIs(l, "reset", 0)) { g_needReset = true; printf("ok"); hxEndLine(); continue; }
     if(pathOp(l)) continue;
+    if(wildOp(l)) continue;
     if(fsOp(l)) continue;
     printf("bad-op"); hxEndLine();
   }
